@@ -115,6 +115,9 @@ def build_coq(targets=None, timeout=2400):
         if os.path.exists(mk + ".files") and open(mk + ".files").read() == want and os.path.exists(mk):
             regen = False
         if regen:
+            for stale in (".Makefile.d",):
+                if os.path.exists(os.path.join(COQ, stale)):
+                    os.remove(os.path.join(COQ, stale))
             sh(["coq_makefile", "-f", "_CoqProject"] + files + ["-o", "Makefile"], cwd=COQ, stage="coq_makefile")
             open(mk + ".files", "w").write(want)
         cmd = ["make", "-j", str(NJOBS)] + (targets or [])
@@ -179,9 +182,33 @@ def run_harness_sharded(cases, tag="batch", shards=None):
     return res
 
 
-def driver_block(rid, cfg, prefix_sexp, call_in, call_out, what):
+def raw_lines(raw):
+    """The unresolved configuration as given by the caller (for the to_config model)."""
+    L = []
+    if not isinstance(raw, dict):
+        return L
+    def b(k, name):
+        if isinstance(raw.get(k), bool):
+            L.append("RAWOPT\t%s\t%d" % (name, int(raw[k])))
+    b("chainSourceMap", "chain"); b("comments", "comments"); b("literals", "literals")
+    if isinstance(raw.get("localVarPrefix"), str):
+        L.append("RAWOPT\tprefix\t" + esc(raw["localVarPrefix"]))
+    if isinstance(raw.get("telemetryVerbosity"), str):
+        L.append("RAWOPT\tverbosity\t" + esc(raw["telemetryVerbosity"]))
+    if isinstance(raw.get("csiMethods"), list):
+        L.append("RAWMETHODS")
+        for m in raw["csiMethods"]:
+            ob = lambda v: "-" if not isinstance(v, bool) else str(int(v))
+            L.append("RAWMETHOD\t%s\t%s\t%s\t%s" % (esc(m.get("src", "")),
+                     "-" if not isinstance(m.get("dst"), str) else "=" + esc(m["dst"]),
+                     ob(m.get("operator")), ob(m.get("allowedWithoutCallee"))))
+    return L
+
+
+def driver_block(rid, cfg, prefix_sexp, call_in, call_out, what, raw=None):
     """One BEGIN..END block of the driver protocol for one call."""
     L = ["BEGIN\t" + rid, "PREFIX\t" + esc(cfg["localVarPrefix"])]
+    L += raw_lines(raw)
     for m in cfg["methods"]:
         L.append("METHOD\t%s\t%s\t%d\t%d" % (esc(m["src"]), esc(m["dst"]), int(m["operator"]),
                                               int(m["allowedWithoutCallee"])))
@@ -226,13 +253,13 @@ def run_model(cases, results, what="model", tag="drv"):
         if "config" not in r or "calls" not in r:
             continue
         for ki, (cin, cout) in enumerate(zip(c["calls"], r["calls"])):
-            if "ast_in" not in cout:
+            if "ast_in" not in cout and "toconfig" not in what:
                 continue
             keys.append((ci, ki))
             w = what
             if cout.get("outcome") == "ok" and (cout["result"].get("metrics") or {}).get("status") == "modified":
                 w += ",modified"
-            blocks.append(driver_block("%d.%d" % (ci, ki), r["config"], r["prefix"], cin, cout, w))
+            blocks.append(driver_block("%d.%d" % (ci, ki), r["config"], r["prefix"], cin, cout, w, raw=c.get("config")))
     if not blocks:
         return {}
     shards = min(NJOBS, max(1, len(blocks) // 40))
@@ -244,6 +271,22 @@ def run_model(cases, results, what="model", tag="drv"):
         for j, r in enumerate(part):
             out[keys[i + j * shards]] = r
     return out
+
+
+def run_node(script, jobs, timeout=1200, args=None):
+    """Feed JSON lines to tools/<script> (Node) and return the parsed JSON lines it prints (None on failure)."""
+    inp = "\n".join(json.dumps(j) for j in jobs) + "\n"
+    try:
+        p = subprocess.run(["node", os.path.join(ROOT, "tools", script)] + list(args or []), input=inp.encode(),
+                           stdout=subprocess.PIPE, stderr=subprocess.PIPE, timeout=timeout,
+                           env=dict(os.environ, VERIF_REPO=REPO))
+    except subprocess.TimeoutExpired:
+        log("node %s timed out" % script)
+        return None
+    if p.returncode != 0:
+        log("node %s failed: %s" % (script, p.stderr.decode()[-800:]))
+        return None
+    return [json.loads(l) for l in p.stdout.decode().splitlines() if l.strip()]
 
 
 # ------------------------------------------------------------------------------------------
